@@ -414,4 +414,42 @@ def c13(tier):
     return finish('C13', tier, verdict, cov, tool, time.time() - t0, level='model_checking', assumptions=ASSUME_PATHS)
 
 
-CHECKS = {'C13': c13, 'C15': c15, 'C06': c06, 'C16': c16, 'C08': c08, 'C09': c09, 'C10': c10, 'C12': c12, 'C07': c07, 'C17': c17, 'C04': c04, 'C01': c01, 'C02': c02, 'C03': c03, 'C05': c05, 'C11': c11, 'C14': c14}
+def c18(tier):
+    import time
+    import funcheck
+    import logcheck
+    t0 = time.time()
+    verdict = common.Verdict('C18')
+    exe = funcheck.build_vfun()
+    bindir = common.build_redo()
+    d = common.workdir('C18_' + tier)
+    cov, tool = logcheck.model_part(tier, d, verdict)
+    c2, t2 = logcheck.meta_part(tier, d, verdict, exe)
+    cov.update(c2)
+    tool += t2
+    c3 = logcheck.stream_part(tier, d, verdict, bindir, exe)
+    cov.update(c3)
+    cov['states'] += cov.get('meta_states', 0)
+    cov['traces_validated_against_impl'] = c3['traces_validated_against_impl']
+    cov['exhaustive'] = True
+    cov['samples'] = [{'stream events': ['Do{t}', 'Line{t,k}', 'Resumed{t}', 'Done{t}', 'End{expect}'],
+                       'scenario': 'random DAG over three directories, scripts write `L <target> <k>` lines between their '
+                                   'redo-ifchange calls (plain, ./ and ../ spellings), some end with an unterminated line, 70 kB '
+                                   'lines, lines resembling records; redo --no-pretty -j1..4 and redo-log -r --no-pretty'}]
+    cov['note'] = ('(a) TLC: RedoLog (log files, writers, the recursive lock-aware follower) on nested/aliased/partial-line '
+                   'programs, live (follower interleaved with the build in every possible way) and replay: Once, InOrder, '
+                   'Attributed, NoStray, DoOnce, FollowerEnds; the two repaired behaviours are kept as switches and must give '
+                   'counterexamples; (b) TLC: RedoMeta round trip for every record of the family and Parse on every near-miss line '
+                   'over {@ : space a 0 .}; Meta::parse is compared on every one of them; (c) real builds: the raw live stream and '
+                   'the raw redo-log -r replay are tokenised (records through Meta::parse) and validated by TLC against TraceLog: '
+                   'every script line exactly once, in order, under the target of the last do/resumed record; no record glued '
+                   'into a line; each target announced once')
+    return finish('C18', tier, verdict, cov, tool, time.time() - t0, assumptions=[
+        'TLC 1.8 and the CommunityModules are correct',
+        'RedoLog is a faithful reading of catlog(); bound by validating real raw streams against TraceLog, whose attribution '
+        'rule (a line belongs to the target of the last do/resumed record) is the one RedoLog states',
+        'scripts write self-identifying lines; a script that forges a fully valid record is outside the claim',
+        'timestamps are compared as numbers (4 decimals)'])
+
+
+CHECKS = {'C18': c18, 'C13': c13, 'C15': c15, 'C06': c06, 'C16': c16, 'C08': c08, 'C09': c09, 'C10': c10, 'C12': c12, 'C07': c07, 'C17': c17, 'C04': c04, 'C01': c01, 'C02': c02, 'C03': c03, 'C05': c05, 'C11': c11, 'C14': c14}
